@@ -2,6 +2,7 @@ package sim
 
 import (
 	"fmt"
+	"os"
 	"math/big"
 	"sort"
 
@@ -333,7 +334,7 @@ func (w *World) RunTx(t *Tx) *BuiltTx {
 			}
 		}
 		logs := r.Log
-		if len(logs) > 120 {
+		if len(logs) > 120 && os.Getenv("VERIF_LONGLOG") == "" {
 			logs = logs[:120]
 		}
 		if bt.OK {
